@@ -114,6 +114,19 @@ func canon(h hash.Hash, e *filer.Entry) {
 	}
 }
 
+// textFids: every chunk that names a blob (and every source) does so in text form
+func textFids(e *filer.Entry) bool {
+	for _, c := range e.Chunks {
+		if c == nil {
+			continue
+		}
+		if (c.FileId == "" && c.Fid != nil) || (c.SourceFileId == "" && c.SourceFid != nil) {
+			return false
+		}
+	}
+	return true
+}
+
 func token(e *filer.Entry) string {
 	h := sha1.New()
 	canon(h, e)
@@ -344,7 +357,7 @@ func main() {
 			for _, p := range tr.List(rs["paths"]) {
 				dn := tr.List(p)
 				name, _ := dn[1].(string)
-				f := tr.Ev{"dir": dn[0], "name": name, "found": false, "got": "", "err": ""}
+				f := tr.Ev{"dir": dn[0], "name": name, "found": false, "got": "", "txt": true, "err": ""}
 				want := util.NewFullPath(real(dn[0]), name)
 				e, err := st.FindEntry(ctx, want)
 				if err == filer_pb.ErrNotFound {
@@ -353,6 +366,7 @@ func main() {
 				} else {
 					f["found"] = true
 					f["got"] = token(e)
+					f["txt"] = textFids(e)
 					if e.FullPath != want {
 						f["got"] = "path:" + string(e.FullPath)
 					}
@@ -369,7 +383,7 @@ func main() {
 						if dd != real(d) {
 							got = "path:" + string(e.FullPath)
 						}
-						items = append(items, tr.Ev{"n": n, "got": got})
+						items = append(items, tr.Ev{"n": n, "got": got, "txt": textFids(e)})
 						return true
 					}
 					var err error
